@@ -33,7 +33,8 @@ Definition sos (k : fkind) (h : Z) (all : bool) (st : dstate) : option dstate :=
 Fixpoint run_frame (k : fkind) (h : Z) (scans : list bool) (st : dstate) : Z * bool :=
   match scans with
   | [] =>
-    if allocated st && (is_prog k || negb (streaming st)) then (emitted st + h, true)
+    if negb (allocated st) then (emitted st, false)            (* "missing SOS marker" *)
+    else if is_prog k || negb (streaming st) then (emitted st + h, true)
     else (emitted st, true)
   | a :: r =>
     match sos k h a st with
